@@ -126,9 +126,14 @@ def tlc(module, cfg, workers=None, simulate=None, depth=None, seed=None, timeout
         stats["wall_s"] = round(time.time() - t0, 2)
         stats["rc"] = p.returncode
         stats["cmd"] = " ".join(cmd[cmd.index("tlc2.TLC"):])
+        if os.environ.get("VERIF_KEEP"):
+            open(os.path.join(d, "tlc.out"), "w").write(out)
         return out, stats
     finally:
-        shutil.rmtree(d, ignore_errors=True)
+        if os.environ.get("VERIF_KEEP"):
+            log("[tlc] kept " + d)
+        else:
+            shutil.rmtree(d, ignore_errors=True)
 
 
 def classpath_ok():
